@@ -96,6 +96,9 @@ fn enums_ffi_to_native() -> (u64, Vec<J>, Option<(Fail, J)>) {
     t.names("LinkReadMode", v::all_link_read_mode(), |x| LinkReadMode::from(x), &[]);
     t.names("CommandStatus", v::all_command_status(), |x| -> CommandStatus { x.into() }, &[]);
     t.round("CommandStatus", v::all_command_status(), |x| -> CommandStatus { x.into() }, |n| ffi::CommandStatus::from(n));
+    // a status given by the application travels to the master as its code: it must still be the like-named value after the
+    // wire (binding -> native -> code octet -> native -> binding)
+    t.round("CommandStatus over the wire", v::all_command_status(), |x| -> CommandStatus { let n: CommandStatus = x.into(); CommandStatus::from(n.as_u8()) }, |n| ffi::CommandStatus::from(n));
     t.names("Variation", v::all_variation(), |x| Variation::from(x), &[]);
     t.round("Variation", v::all_variation(), |x| Variation::from(x), |n| ffi::Variation::from(n));
     t.names("AppDecodeLevel", v::all_app_decode_level(), |x| AppDecodeLevel::from(x), &[]);
